@@ -443,6 +443,24 @@ def c16(year, base, assign, r, asked):
                 d = [k for k in sorted(set(x) | set(y)) if x.get(k) != y.get(k)][:3]
                 errs.append(('renumbering-changes-values', f'renumbering {ren}: {sec} lines {d} differ, e.g. {x.get(d[0]) if d else None!r} vs {y.get(d[0]) if d else None!r}'))
                 break
+    # --- wages carried just below / just above every bracket boundary of the year's rate schedule
+    if not assign and 'w-2:0.box_1' in names and sol.get('1040', {}).get('15') not in (None, ''):
+        from hv import statutory
+        status = sol['1040'].get('filing_status', 'Single')
+        ti = _f(sol, '1040', '15')
+        try:
+            bounds = [float(b) for b, rate in statutory.brackets(year, status)]
+        except Exception:
+            bounds = []
+        for b in bounds + [100000.0]:
+            if b <= ti + 2:
+                continue
+            lo, _ = e3.run_return(year, base, assign, bump={'w-2:0.box_1': b - ti - 1.0})
+            hi, _ = e3.run_return(year, base, assign, bump={'w-2:0.box_1': b - ti + 1.0})
+            n += 2
+            if lo.exc is None and lo.verdict and hi.exc is None and hi.verdict:
+                if _f(hi.solution, '1040', '24') < _f(lo.solution, '1040', '24') - 0.005:
+                    errs.append(('wages-lower-tax|bracket-boundary', f'taxable income carried from {b - 1} to {b + 1} by 2 more dollars of wages: total tax {_f(lo.solution, "1040", "24")} -> {_f(hi.solution, "1040", "24")}'))
     # --- monotonicity and withholding
     for name in names:
         kind = None
